@@ -2,7 +2,7 @@
 # Applies every behaviour-preserving patch under /verif/refactors to a scratch copy, checks that it builds and that the
 # pinned tests of the touched packages still pass (when REFTEST=1), and runs ALL property checks on it: every check must stay silent.
 cd /verif
-export GOFLAGS=-mod=mod GOPROXY=off
+export GOFLAGS="-mod=mod -trimpath" GOPROXY=off
 run() {
   m="$1"; T=$(mktemp -d "${TMPDIR:-/tmp}/emcheck-ref-XXXXXX"); mkdir -p "$T/repo" "$T/verif"
   rsync -a --exclude .git /repo/ "$T/repo/"; cp /verif/known_findings.json "$T/verif/"
